@@ -59,6 +59,10 @@ fn grammar_text(k: usize) -> String {
     if k == 7 {
         return format!("%grmtools{{test_files: [\"*.input\"]}}\n{}", GRAMMARS[0]);
     }
+    if k == 8 {
+        // token names that read like comment delimiters (they end up in the module's cache comment)
+        return "%start E\n%%\nE: E '+' T | T;\nT: 'INT' | \"/*\" E \"*/\";\n".to_string();
+    }
     let mut s = String::from("%start E\n%token");
     for i in 0..260 {
         s.push_str(&format!(" K{i}"));
@@ -66,7 +70,7 @@ fn grammar_text(k: usize) -> String {
     s.push_str("\n%%\nE: E '+' T | T;\nT: 'INT';\n");
     s
 }
-const NGRAMMARS: usize = 8;
+const NGRAMMARS: usize = 9;
 
 const BROKEN_GRAMMARS: &[&str] = &[
     "%start E\n%%\nE: E '+' T | T\nT: 'INT';\n",        // missing ';'
@@ -85,6 +89,8 @@ const LEXERS: &[&str] = &[
     "%%\n[0-9]+ 'INT'\n\\+ '+'\n- '-'\n\\* 'STAR'\n[ \\t\\n]+ ;\n",
     // multi-byte characters end up in the generated module
     "%%\n[0-9]+ 'INT'\n\\+ '+'\n- '-'\n\\( '('\n\\) ')'\n[ \\t\\n\u{e9}\u{6f22}]+ ;\n",
+    // knows the comment-delimiter tokens of grammar variant 8
+    "%%\n[0-9]+ 'INT'\n\\+ '+'\n- '-'\n\\( '('\n\\) ')'\n/\\* \"/*\"\n\\*/ \"*/\"\n[ \\t\\n]+ ;\n",
 ];
 const BROKEN_LEXER: &str = "%%\n[0-9+ 'INT'\n";
 /// a lexer that is only refused at the end of its build (a key of its %grmtools section that
@@ -294,7 +300,7 @@ impl Prop for C18 {
         serde_json::to_value(Case { ops, probe_one_call_stale_parser: false, probe_test_files_not_rerun: false }).unwrap()
     }
     fn rule(&self) -> String {
-        "Histories of 1-8 operations (each possibly followed by Build, always ending in Build) over {EditGrammar(8 variants, one with 260 tokens that u8 storage refuses by panic, one with %grmtools{test_files} and a test input next to the grammar), EditGrammarAtOutputTime (an edit whose file time equals that of the parser module generated before), EditLexer(7 variants, two lacking tokens some grammars use, one with multi-byte characters), Touch, SetOption(18 builder options incl. mod names, visibility (all variants, pub(in ..) with two different paths), edition, recoverer, yacckind, serialisation format, error_on_conflicts, warnings flags, lexer flags, strictness about tokens missing from the lexer / from the parser, the flow: two builders in turn or the one-call CTLexerBuilder::lrpar_config, grammar_path switched between two files of the same leaf name in different directories, grammar_path naming the file through a symbolic link, and the storage type u32/u16/u8 of the builders' lexer types), BreakGrammar(4 kinds: syntax error, unknown rule, broken %grmtools section, unexpected conflicts), BreakLexer (a syntax error, or a %grmtools key nothing reads, which is only refused at the end of the lexer's build), Unreadable (the grammar or the lexer file is not UTF-8, or is deleted), Build}. Every Build runs the real CTParserBuilder/CTLexerBuilder in a process of its own; file times come from a logical clock. Oracle after every Build: successful => parser and lexer modules byte-identical (timestamp masked) to a clean build of the same sources/settings into an empty directory; nothing changed since the last successful build => regenerated()==false and files untouched (same bytes, same file times); grammar text or a parser-relevant option changed => regenerated()==true; failed => no generated file from the earlier sources left at the output path. Evaluation = one Build step. Non-trivial: a change between two builds or a failing build after a successful one; distinct by hash(history).".into()
+        "Histories of 1-8 operations (each possibly followed by Build, always ending in Build) over {EditGrammar(9 variants, one whose token names read like comment delimiters, one with 260 tokens that u8 storage refuses by panic, one with %grmtools{test_files} and a test input next to the grammar), EditGrammarAtOutputTime (an edit whose file time equals that of the parser module generated before), EditLexer(8 variants, two lacking tokens some grammars use, one with multi-byte characters), Touch, SetOption(18 builder options incl. mod names, visibility (all variants, pub(in ..) with two different paths), edition, recoverer, yacckind, serialisation format, error_on_conflicts, warnings flags, lexer flags, strictness about tokens missing from the lexer / from the parser, the flow: two builders in turn or the one-call CTLexerBuilder::lrpar_config, grammar_path switched between two files of the same leaf name in different directories, grammar_path naming the file through a symbolic link, and the storage type u32/u16/u8 of the builders' lexer types), BreakGrammar(4 kinds: syntax error, unknown rule, broken %grmtools section, unexpected conflicts), BreakLexer (a syntax error, or a %grmtools key nothing reads, which is only refused at the end of the lexer's build), Unreadable (the grammar or the lexer file is not UTF-8, or is deleted), Build}. Every Build runs the real CTParserBuilder/CTLexerBuilder in a process of its own; file times come from a logical clock. Oracle after every Build: successful => parser and lexer modules byte-identical (timestamp masked) to a clean build of the same sources/settings into an empty directory; nothing changed since the last successful build => regenerated()==false and files untouched (same bytes, same file times); grammar text or a parser-relevant option changed => regenerated()==true; failed => no generated file from the earlier sources left at the output path. Evaluation = one Build step. Non-trivial: a change between two builds or a failing build after a successful one; distinct by hash(history).".into()
     }
     fn assumptions(&self) -> Vec<String> {
         vec!["a Touch (same bytes, newer time) may or may not regenerate".into()]
